@@ -152,7 +152,7 @@ Print Assumptions C10_handler_iff_unblocked.
 Theorem C10_handler_once : forall cfg h mc req,
   sp_target cfg req <> TWellKnown ->
   dp_calls (sp_handler_out cfg h mc req) =
-  [mkHreq (dp_target_rid (sp_target cfg req)) (m_code req) (sp_req' cfg req) (dp_query (m_opts req))].
+  [mkHreq (dp_target_rid (sp_target cfg req)) (m_code req) (sp_req' cfg req) (dp_query cfg (m_opts req))].
 Proof. exact handler_call. Qed.
 Print Assumptions C10_handler_once.
 
@@ -162,8 +162,8 @@ Theorem C10_handler_sees_request : forall cfg req,
   map fst (sp_adjusted cfg req) = map fst (m_opts req) /\
   (forall n, n <> DP_BLOCK2 -> n <> DP_HOP_LIMIT ->
              dp_values n (sp_adjusted cfg req) = dp_values n (m_opts req)) /\
-  dp_uri_path (sp_adjusted cfg req) = dp_uri_path (m_opts req) /\
-  dp_query (sp_adjusted cfg req) = dp_query (m_opts req) /\
+  dp_uri_path cfg (sp_adjusted cfg req) = dp_uri_path cfg (m_opts req) /\
+  dp_query cfg (sp_adjusted cfg req) = dp_query cfg (m_opts req) /\
   m_payload (sp_req' cfg req) = m_payload req /\ m_token (sp_req' cfg req) = m_token req /\
   m_code (sp_req' cfg req) = m_code req /\ m_type (sp_req' cfg req) = m_type req /\
   m_mid (sp_req' cfg req) = m_mid req.
@@ -195,7 +195,7 @@ Theorem C10_what_is_set_is_sent : forall cfg h mc req,
   (m_type req = NR_CON \/ m_type req = NR_NON) ->
   (match sp_target cfg req with TRes _ | TUnknown _ _ => True | _ => False end) ->
   let i := mkHreq (dp_target_rid (sp_target cfg req)) (m_code req) (sp_req' cfg req)
-                  (dp_query (m_opts req)) in
+                  (dp_query cfg (m_opts req)) in
   let r := h i in
   nr_std_code (hr_code r) -> hr_code r <> 168 ->
   sp_handler_out cfg h mc req =
@@ -213,11 +213,11 @@ Proof. exact handler_out_is. Qed.
 Print Assumptions C10_what_is_set_is_sent.
 
 Theorem C10_wellknown : forall cfg h mc req,
-  sp_target cfg req = TWellKnown ->
+  sp_target cfg req = TWellKnown -> dp_has DP_BLOCK2 (m_opts req) = false ->
   sp_handler_out cfg h mc req =
   dp_finish cfg mc (sp_req' cfg req) (Some NR_F_HAS_MCAST) false false
     (mkMsg (dp_resp_type req) 69 (m_mid req) (m_token req) [(DP_CONTENT_FORMAT, [40])]
-           (c_wk cfg (dp_query (m_opts req)))).
+           (c_wk cfg (dp_query cfg (m_opts req)))).
 Proof. exact wellknown_out. Qed.
 Print Assumptions C10_wellknown.
 
